@@ -1,7 +1,7 @@
 CONSTANTS N = 2
-CONSTANT Configs <- OutcomeQuick
+CONSTANT Configs <- StopQuick
 SPECIFICATION MCSpec
 VIEW MCView
 CONSTRAINT ExecBound
-INVARIANTS Lead_C04_Outcome
+INVARIANTS TypeOK C08_FinalLabels C04_NoRunningLeft
 CHECK_DEADLOCK FALSE
